@@ -29,6 +29,7 @@ def run(chk, replay=None):
         if G["skipped"]: chk.feat("skipped:" + G["skipped"].split(":")[0]); continue
         eps = {}
         for vn, rr in G["runs"].items():
+            if "error" in rr and al.unsupported_hang(chk, cfg, rr): continue
             if "error" in rr:
                 chk.case((repr(cfg), vn), ["impl-error"], None)
                 chk.violation(f"async-run-fails:{rr['error'].split(':')[0].split(' ')[0]}", f"threaded run failed under record setting {vn}: {rr['error'][:300]}", dict(cfg=cfg, variant=vn))
@@ -101,8 +102,43 @@ def run(chk, replay=None):
         for m in G.get("models", []):
             d = al.compare_episode(cfg, eps["all"], m)
             if d: chk.broke("correspondence:M1-vs-AsyncGraph", f"{d} | cfg={cfg}")
+    wall_clock_records(chk, 2 if quick else 6)
     from . import c13_compiled
     c13_compiled.run(chk)
     chk.extra["rule"] = ("each random lattice graph is run under sampled (quick) / all 32 (thorough) combinations of the five record flags and "
                          "max_records in {1, 3, unlimited}; the host-side probe log (what each step really received and returned, incl. rng words) "
                          "must be identical across settings and every recorded row must equal the host log row; distinct by graph")
+
+
+def wall_clock_records(chk, n):
+    """wall-clock episodes (no model: not deterministic) in which a node re-stamps its step time: every recorded step must be self-consistent:
+    delay = ts_end - ts_start (the recorded, possibly re-stamped start) and phase_overwrite = the shift of the start"""
+    import random
+    r = chk.rnd; jobs = []
+    for i in range(n):
+        rnd = random.Random(r.getrandbits(32))
+        cfg = dict(nodes={"n0": dict(nid=0, period=8, exp=1, delays=[1], advance=False, sched="FREQ"),
+                          "n1": dict(nid=1, period=rnd.choice([4, 8]), exp=1, delays=[1], advance=False, sched="FREQ")},
+                   conns={"n1>n0": dict(out="n1", **{"in": "n0"}, blocking=False, skip=False, jitter="LATEST", window=2, exp=1, delays=[1]),
+                          "n0>n1": dict(out="n0", **{"in": "n1"}, blocking=False, skip=True, jitter="LATEST", window=1, exp=1, delays=[1])}, sup="n0", steps=6)
+        jobs.append(dict(id=f"wc{i}", kind="wallclock_stamp", cfg=cfg, stamper=rnd.choice(["n0", "n1"]), steps=6, shift=rnd.choice([0.0005, 0.001, 0.002])))
+    res = al.run_jobs(jobs, nproc=min(4, n), per_job_timeout=60)
+    for j in jobs:
+        rr = res.get(j["id"], dict(error="MISSING"))
+        chk.case(("wallclock-stamp", repr(j["cfg"]), j["stamper"], j["shift"]), ["wall-clock", "re-stamped-step-time"], None)
+        if "error" in rr:
+            e = rr["error"]
+            if e.startswith("ValueError") and "step_state.ts" in e: chk.feat("wall-clock-stamp-rejected-by-runtime"); continue
+            if "tree_map()" in e or e.startswith("TypeError"): chk.feat("record_unavailable"); continue
+            chk.violation("wall-clock-run-fails:" + e.split(":")[0], e[:300], dict(job=j)); continue
+        chk.traces_impl += 1
+        for nname, c in rr["rows"].items():
+            last = len(c["seq"]) - (1 if nname == j["cfg"]["sup"] else 0)      # the supervisor's last tick is the one skipped at stop(): no step ran
+            for k in range(last):
+                if abs((c["ts_end"][k] - c["ts_start"][k]) - c["delay"][k]) > 2e-5:
+                    chk.violation("record-row-unfaithful:delay(wall-clock)", f"{nname}[{k}]: recorded delay {c['delay'][k]:.6f} but ts_end - ts_start = "
+                                  f"{c['ts_end'][k] - c['ts_start'][k]:.6f} (phase_overwrite {c['phase_overwrite'][k]:.6f})", dict(job=j, row=k)); break
+                want = j["shift"] if nname == j["stamper"] else 0.0
+                if abs(c["phase_overwrite"][k] - want) > 2e-5:
+                    chk.violation("record-row-unfaithful:phase_overwrite(wall-clock)", f"{nname}[{k}]: phase_overwrite {c['phase_overwrite'][k]:.6f}, the step shifted its "
+                                  f"start by {want}", dict(job=j, row=k)); break
